@@ -334,6 +334,12 @@ class Policy:
             record_cancel(ctx)
             raise
 
+        except RetryExhaustedError as exc:
+            # Raised by the operation itself (nested policy): propagate it and record the same
+            # failure as call() and as execute() with a retry component do.
+            record_failure(ctx, exc.last_class or ErrorClass.UNKNOWN)
+            raise
+
         except Exception as exc:
             klass = classify_for_breaker(exc, None)
             if isinstance(exc, CircuitOpenError):
